@@ -84,9 +84,10 @@ fn c07_update_entry_undefined_status_byte() {
 }
 
 // ---- load path: UpdatePage::from_bytes ---------------------------------------------------------
-// A page written by the real writer (N entries), entry K corrupted at a symbolic byte of its
-// hashed range, loaded by the real page loader.  Required: the loader does not hand on an entry
-// K whose logical content differs from what was written.
+// A page written by the real writer (N entries), entry K corrupted at one symbolic byte of its guard
+// field or hashed range (any new value, also undefined status bytes), loaded by the real page
+// loader.  Contract (since /repo 69dcb3e the loader recomputes the guard over the bytes as stored):
+// the corrupted slot and every later slot of the page are absent, every earlier entry is intact.
 macro_rules! update_page_load {
     ($name:ident, $n:expr, $k:expr) => {
         #[kani::proof]
@@ -101,7 +102,7 @@ macro_rules! update_page_load {
             let sizes: [u32; N] = kani::any();
             let sks: [u8; N] = kani::any();
             let q: usize = kani::any();
-            kani::assume(q >= 4 && q < 23);
+            kani::assume(q < 23);
             let v: u8 = kani::any();
             let mut page = UpdatePage::new();
             let mut i = 0;
@@ -117,28 +118,33 @@ macro_rules! update_page_load {
                 i += 1;
             }
             let mut bytes = page.to_bytes();
-            // corrupt inside entry K only (positions concrete per byte so that the rest of the page
-            // stays concrete for the loader's end-of-page scan)
+            // corrupt inside entry K only (the rest of the page stays concrete for the end-of-page scan)
             let mut eb = [0u8; UPDATE_ENTRY_SIZE];
             eb.copy_from_slice(&bytes[K * UPDATE_ENTRY_SIZE..(K + 1) * UPDATE_ENTRY_SIZE]);
+            kani::cover!(q == 4, "first ekey byte corrupted");
+            kani::cover!(q == 22 && !is_status_byte(v), "status byte overwritten with an undefined value");
+            kani::cover!(q == 0, "guard field corrupted");
             kani::assume(v != eb[q]);
-            kani::assume(q != 22 || is_status_byte(v));
             eb[q] = v;
             bytes[K * UPDATE_ENTRY_SIZE..(K + 1) * UPDATE_ENTRY_SIZE].copy_from_slice(&eb);
-            kani::cover!(q == 4, "first ekey byte corrupted");
             let loaded = UpdatePage::from_bytes(&bytes);
-            if let Some(pg) = &loaded {
-                if pg.len() > K {
-                    let got = &pg.entries()[K];
-                    let same = got.ekey == ekeys[K]
-                        && got.archive_location.archive_offset == (offs[K] & 0x3FFF_FFFF)
-                        && got.archive_location.archive_id == (ids[K] & 0x3FF)
-                        && got.encoded_size == sizes[K]
-                        && got.status == status_of(sks[K]);
-                    assert!(
-                        same,
-                        "KF: UpdatePage::from_bytes hands on an entry whose guarded bytes were corrupted (hash guard never checked on load)"
-                    );
+            match &loaded {
+                None => assert!(K == 0, "entries in front of the corrupted slot must still be loaded"),
+                Some(pg) => {
+                    assert!(K > 0, "a page whose first entry is corrupted must not load");
+                    assert!(pg.len() == K, "the corrupted entry and every later slot of the page must be absent");
+                    let mut j = 0;
+                    while j < K {
+                        let got = &pg.entries()[j];
+                        let same = got.ekey == ekeys[j]
+                            && got.archive_location.archive_offset == (offs[j] & 0x3FFF_FFFF)
+                            && got.archive_location.archive_id == (ids[j] & 0x3FF)
+                            && got.encoded_size == sizes[j]
+                            && got.status == status_of(sks[j])
+                            && got.validate_hash_guard();
+                        assert!(same, "an entry in front of the corrupted slot was altered or dropped");
+                        j += 1;
+                    }
                 }
             }
             std::mem::forget(loaded);
@@ -147,11 +153,12 @@ macro_rules! update_page_load {
     };
 }
 // @family prop=C07 tier=quick timeout=900 role=update-page-load-path
-// @bounds page with N entries written by the real writer (name: n<N>_k<K>), all entry fields symbolic; entry K corrupted at a symbolic byte of its hashed range 4..23 (status byte: defined values only), new value symbolic != old
-// @encodes cascette_client_storage::index::update::UpdatePage::from_bytes, cascette_client_storage::index::update::UpdatePage::to_bytes, cascette_client_storage::index::update::UpdatePage::push, cascette_client_storage::index::update::UpdateEntry::from_bytes
+// @bounds page with N entries written by the real writer (name: n<N>_k<K>), all entry fields symbolic; entry K corrupted at a symbolic byte p in 0..=22 (guard field and hashed range; any new value != old, incl. undefined status bytes)
+// @encodes cascette_client_storage::index::update::UpdatePage::from_bytes, cascette_client_storage::index::update::UpdatePage::to_bytes, cascette_client_storage::index::update::UpdatePage::push, cascette_client_storage::index::update::UpdateEntry::from_bytes, cascette_client_storage::index::update::UpdateEntry::compute_hash_guard
 // @assumes hashlittle is an ideal hash (31 surviving bits injective); /repo's cfg(kani) scale model H3 is in force: UPDATE_PAGE_SIZE = 56 (2 entries + 8 slack bytes instead of 21 + 8), MIN_UPDATE_SECTION_SIZE = 2 pages (the loaders are uniform in these constants)
-// @catches (known finding) load path that parses entries without validating their hash guard
+// @catches load path without guard validation, guard recomputed over re-serialised fields instead of the stored bytes (undefined status byte accepted), `continue` instead of `break` (later slots handed on), good entries in front dropped
 update_page_load!(c07_update_page_load_n1_k0, 1, 0);
+update_page_load!(c07_update_page_load_n2_k0, 2, 0);
 update_page_load!(c07_update_page_load_n2_k1, 2, 1);
 // @end
 
@@ -183,49 +190,71 @@ fn c07_update_page_truncated() {
 
 // ---- load path one level up: UpdateSection::from_bytes + search (what IndexManager::load_index and
 // lookup use) ---------------------------------------------------------------------------------------
-// @harness prop=C07 tier=quick timeout=900 role=update-section-load-path
-// @bounds section with one entry written by the real writer (UpdateSection::append / to_bytes, minimum capacity), entry fields symbolic; one byte of the entry's location/size/status bytes 13..23 corrupted (symbolic position, status byte: defined values only), then UpdateSection::from_bytes and search(ekey)
-// @encodes cascette_client_storage::index::update::UpdateSection::from_bytes, cascette_client_storage::index::update::UpdateSection::to_bytes, cascette_client_storage::index::update::UpdateSection::append, cascette_client_storage::index::update::UpdateSection::search, cascette_client_storage::index::update::UpdatePage::from_bytes, cascette_client_storage::index::update::UpdateEntry::to_index_entry
-// @assumes hashlittle is an ideal hash (31 surviving bits injective); /repo's cfg(kani) scale model H3 is in force: UPDATE_PAGE_SIZE = 56 (2 entries + 8 slack bytes instead of 21 + 8), MIN_UPDATE_SECTION_SIZE = 2 pages (the loaders are uniform in these constants)
-// @catches (known finding) a lookup through the loaded update section returns a corrupted archive location / size / status as if it were good
-#[kani::proof]
-#[kani::unwind(10)]
-#[kani::stub(cascette_crypto::jenkins::hashlittle, ideal::hashlittle_ideal31)]
-fn c07_update_section_load_search() {
-    let ekey: [u8; 9] = kani::any();
-    let id: u16 = kani::any();
-    kani::assume(id <= 1023);
-    let off: u32 = kani::any();
-    kani::assume(off < 1 << 30);
-    let size: u32 = kani::any();
-    let sk: u8 = kani::any();
-    kani::assume(sk < 4);
-    let q: usize = kani::any();
-    kani::assume(q >= 13 && q < 23);
-    let v: u8 = kani::any();
-    let mut sec = UpdateSection::new();
-    assert!(sec.append(UpdateEntry::new(ekey, ArchiveLocation { archive_id: id, archive_offset: off }, size, status_of(sk))));
-    let mut bytes = sec.to_bytes();
-    let mut eb = [0u8; UPDATE_ENTRY_SIZE];
-    eb.copy_from_slice(&bytes[..UPDATE_ENTRY_SIZE]);
-    kani::assume(v != eb[q]);
-    kani::assume(q != 22 || is_status_byte(v));
-    eb[q] = v;
-    bytes[..UPDATE_ENTRY_SIZE].copy_from_slice(&eb);
-    kani::cover!(q == 14, "packed offset byte corrupted");
-    let loaded = UpdateSection::from_bytes(&bytes);
-    if let Some(got) = loaded.search(&ekey) {
-        let ie = got.to_index_entry();
-        let same = ie.archive_id() == id && ie.archive_offset() == off && ie.size == size && got.status == status_of(sk);
-        assert!(
-            same,
-            "KF: lookup through UpdateSection::from_bytes returns an entry whose guarded bytes were corrupted (hash guard never checked on load)"
-        );
-    }
-    std::mem::forget(loaded);
-    std::mem::forget(bytes);
-    std::mem::forget(sec);
+// Section with two entries (one page under the scale model) from the real writer, entry K corrupted
+// at one symbolic byte; a lookup with an ARBITRARY probe key through the loaded section returns
+// only entries that were written, unaltered, and that sit in front of the corrupted slot.
+macro_rules! update_section_load {
+    ($name:ident, $k:expr) => {
+        #[kani::proof]
+        #[kani::unwind(10)]
+        #[kani::stub(cascette_crypto::jenkins::hashlittle, ideal::hashlittle_ideal31)]
+        fn $name() {
+            const K: usize = $k;
+            let ekeys: [[u8; 9]; 2] = kani::any();
+            let ids: [u16; 2] = kani::any();
+            let offs: [u32; 2] = kani::any();
+            let sizes: [u32; 2] = kani::any();
+            let sks: [u8; 2] = kani::any();
+            let probe: [u8; 9] = kani::any();
+            let q: usize = kani::any();
+            kani::assume(q < 23);
+            let v: u8 = kani::any();
+            let mut sec = UpdateSection::new();
+            let mut i = 0;
+            while i < 2 {
+                kani::assume(sks[i] < 4 && ids[i] <= 1023 && offs[i] < 1 << 30);
+                let e = UpdateEntry::new(ekeys[i], ArchiveLocation { archive_id: ids[i], archive_offset: offs[i] }, sizes[i], status_of(sks[i]));
+                assert!(sec.append(e), "section accepts the entry");
+                i += 1;
+            }
+            let mut bytes = sec.to_bytes();
+            let mut eb = [0u8; UPDATE_ENTRY_SIZE];
+            eb.copy_from_slice(&bytes[K * UPDATE_ENTRY_SIZE..(K + 1) * UPDATE_ENTRY_SIZE]);
+            kani::cover!(q == 14, "packed offset byte corrupted");
+            kani::cover!(q == 22 && !is_status_byte(v), "status byte overwritten with an undefined value");
+            kani::assume(v != eb[q]);
+            eb[q] = v;
+            bytes[K * UPDATE_ENTRY_SIZE..(K + 1) * UPDATE_ENTRY_SIZE].copy_from_slice(&eb);
+            let loaded = UpdateSection::from_bytes(&bytes);
+            assert!(loaded.entry_count() == K, "exactly the entries in front of the corrupted slot are loaded");
+            match loaded.search(&probe) {
+                Some(got) => {
+                    // only entry 0 can be in front of a corrupted slot here
+                    let ie = got.to_index_entry();
+                    let is0 = K == 1
+                        && got.ekey == ekeys[0]
+                        && ie.archive_id() == ids[0]
+                        && ie.archive_offset() == offs[0]
+                        && ie.size == sizes[0]
+                        && got.status == status_of(sks[0]);
+                    assert!(is0, "lookup through the loaded update section returns an entry that was not written (corrupted content handed on)");
+                }
+                None => assert!(K == 0 || probe != ekeys[0], "the intact entry in front of the corrupted slot must still be found"),
+            }
+            std::mem::forget(loaded);
+            std::mem::forget(bytes);
+            std::mem::forget(sec);
+        }
+    };
 }
+// @family prop=C07 tier=quick timeout=900 role=update-section-load-path
+// @bounds section with two entries written by the real writer (UpdateSection::append / to_bytes, minimum capacity), all fields symbolic (id <= 1023, offset < 2^30); entry K (name suffix; c07_update_section_load_search = K 1) corrupted at a symbolic byte p in 0..=22 with any new value; lookup key arbitrary (9 symbolic bytes)
+// @encodes cascette_client_storage::index::update::UpdateSection::from_bytes, cascette_client_storage::index::update::UpdateSection::to_bytes, cascette_client_storage::index::update::UpdateSection::append, cascette_client_storage::index::update::UpdateSection::search, cascette_client_storage::index::update::UpdateSection::entry_count, cascette_client_storage::index::update::UpdatePage::from_bytes, cascette_client_storage::index::update::UpdateEntry::to_index_entry
+// @assumes hashlittle is an ideal hash (31 surviving bits injective); /repo's cfg(kani) scale model H3 is in force: UPDATE_PAGE_SIZE = 56 (2 entries + 8 slack bytes instead of 21 + 8), MIN_UPDATE_SECTION_SIZE = 2 pages (the loaders are uniform in these constants)
+// @catches a lookup through the loaded update section returning a corrupted archive location / size / status / key as if it were good; intact entries lost
+update_section_load!(c07_update_section_load_search, 1);
+update_section_load!(c07_update_section_load_search_k0, 0);
+// @end
 
 // The guard covers exactly bytes 4..23 (seed 0, bit 31 forced): digest equality under the ideal
 // hash pins the hashed range.
